@@ -15,7 +15,8 @@ PID = "C13"
 RULE = (
     "case = state-machine history on a recipe-built element or model class: steps are reconfigurations "
     "(assign a keyword attribute incl. back to NotPassed; assign an element-valued keyword; reassign "
-    ".properties; .properties[name] = Property(...); del .properties[name]) on any node of the tree, "
+    ".properties; .properties[name] = Property(...); del .properties[name]; .properties.pop(name); "
+    ".properties[name].required = flag) on any node of the tree, "
     "interleaved with validate(value aimed at the current schema); after each validate the real "
     "object must agree (verdict kind and read-back result) with an element freshly built from the "
     "model configuration; non-trivial = history with a validate before and after a reconfiguration "
@@ -106,6 +107,16 @@ class Harness:
                     break
             else:
                 props.append(copy.deepcopy(p))
+        elif kind in ("flag_prop", "pop_prop"):
+            if node.get("props") is None or isinstance(obj.properties, NotPassed) or not node["props"]:
+                return []
+            q = node["props"][op["index"] % len(node["props"])]
+            if kind == "flag_prop":
+                obj.properties[q["name"]].required = bool(op["required"])
+                q["required"] = bool(op["required"])
+            else:
+                obj.properties.pop(q["name"])
+                node["props"] = [x for x in node["props"] if x["name"] != q["name"]]
         elif kind == "del_prop":
             if node.get("props") is None or isinstance(obj.properties, NotPassed):
                 return []
@@ -271,6 +282,21 @@ class Machine(RuleBasedStateMachine):
             return
         nid = data.draw(st.sampled_from(ids))
         self._do({"op": "del_prop", "node": nid, "index": data.draw(st.integers(0, 5))})
+        self._aimed_validate(data)
+
+    @rule(data=st.data())
+    def prop_wrapper(self, data):
+        """Reconfigure a property wrapper in place: flip .required, or remove it with dict.pop()."""
+        idx = R.index(self.h.model)
+        ids = [i for i in self._nodes(kinds=("Element", "Object")) if idx[i].get("props")]
+        if not ids:
+            return
+        nid = data.draw(st.sampled_from(ids))
+        if data.draw(st.integers(0, 2)) == 0:
+            self._do({"op": "pop_prop", "node": nid, "index": data.draw(st.integers(0, 5))})
+        else:
+            self._do({"op": "flag_prop", "node": nid, "index": data.draw(st.integers(0, 5)),
+                      "required": data.draw(st.booleans())})
         self._aimed_validate(data)
 
     def _aimed_validate(self, data):
